@@ -189,6 +189,32 @@ def r7_first_result_kept(ctx):
            ctx.where(f), sample={"leaves": len(lvs), "cases": n})
     for u in und[:1]:
         ctx.lost(rid, "an iteration of Search::best_move under a condition the decision table cannot evaluate (%s)" % "; ".join(show(d) for d, cc in u[3].opaque)[:160])
+    # the other half: from the loop header to the search. Leaving the loop *before* the iteration's search because of
+    # the clock is only sound when an answer exists already
+    body_set = set(body)
+    try:
+        pre = explore(f, var_of, domains, entry=hdr, stop_at=lambda b: b == rec[0] or b not in body_set, max_leaves=20000)
+    except TooBig as e:
+        ctx.lost(rid, "the part of an iteration before its search as a decision table (%s)" % e)
+        return
+    searched = [lf for lf in pre if lf.path[-1] == rec[0]]
+    left = [lf for lf in pre if lf.path[-1] != rec[0] and lf.path[-1] not in body_set]
+    bad = None
+    for lf in left:
+        if "clock_test" not in lf.env or lf.env.get("earlier") == 1:
+            continue
+        # the same inputs with the other outcome of the clock test go on to search: the clock decides, and nothing says
+        # an earlier answer exists
+        for l2 in searched:
+            if l2.env.get("clock_test") == 1 - lf.env["clock_test"] and all(l2.env.get(k_, v_) == v_ for k_, v_ in lf.env.items() if k_ != "clock_test"):
+                bad = lf
+                break
+        if bad:
+            break
+    if searched:
+        ctx.ob(rid, "best_move|no-clock-exit-before-the-first-search", bad is None,
+               "" if bad is None else "Search::best_move leaves the iteration loop before searching when the clock test is %s, without having tested that an earlier iteration produced a move: with a zero or nearly used-up budget (go movetime 0, wtime 1) not even depth 1 is searched and the go is answered with `bestmove 0000` in a position with legal moves" % bad.env["clock_test"],
+               ctx.where(f), sample={"paths_to_search": len(searched), "paths_leaving_before": len(left)})
 
 
 def r8_root_exits(ctx):
@@ -421,3 +447,50 @@ _run_before_r10 = run
 def run(ctx):
     _run_before_r10(ctx)
     r10_answer_provenance(ctx)
+
+
+def r11_searchmoves_match_the_whole_move(ctx):
+    """a generated move is kept by `searchmoves` only if it equals a listed move - promotion piece included"""
+    rid = "C07.R11"
+    ctx.rule(rid, "filter_search_moves keeps a generated move only when it equals a listed move in source, target and promotion piece: either by comparing whole UciMoves (move_into_uci_move + contains / ==) or field by field including the promotion", floor=1)
+    prog = ctx.prog
+    ctx.fn(rid, SEARCH + "filter_search_moves", positional=False)
+    keys = [k for k in sorted(prog.fns) if k == SEARCH + "filter_search_moves" or k.startswith(SEARCH + "filter_search_moves::")]
+    calls, fields = set(), set()
+    where = None
+    for k in keys:
+        g = prog.fns[k]
+        for bb in g["blocks"]:
+            if bb["cleanup"]:
+                continue
+            t = bb["term"]
+            if t["k"] == "call":
+                calls.add((t["callee"].get("key") or "").rsplit("::", 1)[-1] if not (t["callee"].get("key") or "").startswith("inkayaku_") else (t["callee"].get("key") or ""))
+                where = where or (g, t["line"])
+            places = [s["rv"]["place"] for s in bb["stmts"] if "place" in s["rv"]] + [a["pl"] for s in bb["stmts"] for a in s["rv"].get("a", []) if a.get("k") in ("copy", "move")]
+            for pl in places:
+                for e in pl.get("p", []):
+                    if isinstance(e, dict) and e.get("name") in ("source", "target", "promote_to"):
+                        fields.add(e["name"])
+    whole = any(c.endswith("move_into_uci_move") for c in calls) and ({"contains", "eq", "ne"} & calls)
+    squares = ({"source", "target"} <= fields) or any(c.endswith("Move::get_source_square") for c in calls)
+    promo = "promote_to" in fields or any(c.endswith("Move::get_promotion_piece") for c in calls)
+    g, line = where if where else (prog.fns[keys[0]], None)
+    if whole:
+        ctx.ob(rid, "filter|whole-move-compared", True, "", ctx.where(g, line), sample={"via": "move_into_uci_move + contains/=="})
+    elif squares and not promo:
+        ctx.ob(rid, "filter|whole-move-compared", False,
+               "filter_search_moves matches generated moves against the searchmoves list on the squares only: naming one promotion (searchmoves e7e8n) lets all four promotions on those squares through, and the engine answers with one that was not listed (e7e8q)",
+               ctx.where(g, line))
+    elif squares and promo:
+        ctx.ob(rid, "filter|whole-move-compared", True, "", ctx.where(g, line), sample={"via": "field by field, promotion included"})
+    else:
+        ctx.lost(rid, "how filter_search_moves compares a generated move with the listed moves")
+
+
+_run_before_r11 = run
+
+
+def run(ctx):
+    _run_before_r11(ctx)
+    r11_searchmoves_match_the_whole_move(ctx)
